@@ -124,8 +124,14 @@ class RandomChooser(object):
                 others = [t for t in cands if t is not cur]
                 if others:
                     a = others[rng.randrange(len(others))]
-                    self.pl_state, self.pl_a, self.pl_b, self.pl_n = "counting", a.tid, cur.tid, 0
-                    return a
+                    if rng.random() < 0.5:
+                        # the client first: k of its yield points, then the thread inside the window
+                        self.pl_state, self.pl_a, self.pl_b, self.pl_n = "counting", a.tid, cur.tid, 0
+                        return a
+                    # or the other way round: the thread inside the window goes on for k yield points
+                    # (out of the user code, into the library's bookkeeping), then the client runs
+                    self.pl_state, self.pl_a, self.pl_b, self.pl_n = "counting", cur.tid, a.tid, 0
+                    return cur
             elif st == "counting":
                 if runnable and cur.tid == self.pl_a:
                     self.pl_n += 1
@@ -1236,6 +1242,8 @@ class SimThread(object):
         ts = self._ts
         if ts is None:
             raise RuntimeError("cannot join thread before it is started")
+        if ts is sim.cur:
+            raise RuntimeError("cannot join current thread")
         if ts.status == DONE:
             return
         ts.joiners.append(sim.cur)
